@@ -367,6 +367,163 @@ def ob_tracked_add(tier="quick"):
     return explore(body, {"budget_s": 60})
 
 
+class _Term:
+    """a Z3 Boolean term: `ident` is what Z3's hash-consing makes of it (structurally equal terms are ONE term); hash() is Z3_get_ast_hash,
+    a 32-bit function of the term - two different terms may have the same hash (the contract allows it); .ast.value is the term's address"""
+    def __init__(self, ident, h):
+        self.ident, self.h = ident, h
+        self.ast = type("Ast", (), {"value": 1000 + ident})()
+
+    def __hash__(self):
+        return self.h
+
+    def __eq__(self, o):
+        return isinstance(o, _Term) and o.ident == self.ident
+
+    def get_id(self):
+        return self.ident
+
+    def __repr__(self):
+        return f"<z3 term #{self.ident} hash={self.h}>"
+
+
+class _Lit:
+    def __init__(self, name):
+        self.name = name
+
+    def __str__(self):
+        return self.name
+
+    def __eq__(self, o):
+        return isinstance(o, _Lit) and o.name == self.name
+
+    def __hash__(self):
+        return hash(self.name)
+
+
+class _Impl:
+    def __init__(self, lit, term):
+        self._ch = [lit, term]
+
+    def children(self):
+        return self._ch
+
+
+class TrackSolver:
+    """ghost z3.Solver for tracked assertions: assert_and_track(c, name) records the implication name => c"""
+    def __init__(self):
+        self.tracked = []          # (name, term)
+        self.plain = []
+
+    def assertions(self):
+        return [_Impl(_Lit(n), t) for n, t in self.tracked]
+
+    def assert_and_track(self, c, name):
+        if any(n == name for n, _ in self.tracked):
+            raise ClaripyZ3Error("spec: Z3 rejects a second tracked assertion under the same name")
+        self.tracked.append((name, c))
+
+    def add(self, *cs):
+        self.plain.extend(cs)
+
+    def unsat_core(self):
+        c = cur()
+        k = c.choose([True] * (1 << len(self.tracked)), "core-subset")
+        self.last_core = [t for i, (n, t) in enumerate(self.tracked) if k >> i & 1]
+        return [_Lit(n) for i, (n, _) in enumerate(self.tracked) if k >> i & 1]
+
+
+def ob_tracked_assertions(tier="quick"):
+    """the real BackendZ3._add(s, terms, track=True) and _unsat_core(s) over a ghost solver.
+    _add: afterwards EVERY given term is asserted in the solver (a term that is already tracked need not be asserted twice - but a
+    DIFFERENT term must never be skipped, whatever Z3's 32-bit term hashes are); nothing else is asserted.
+    _unsat_core: returns exactly the terms whose tracking literals Z3 reports."""
+    ns = _ns()
+    BZ = ns["BackendZ3"]
+    proxies.set_iw(12)
+
+    def body(c):
+        b = object.__new__(BZ)
+        s = TrackSolver()
+        # three distinct terms; Z3's hash of the second / third may coincide with an earlier one
+        hs = [0, c.choose([True, True], "hash1-collides-with-0"), None]
+        hs[1] = 0 if hs[1] == 1 else 1
+        k = c.choose([True, True, True], "hash2")
+        hs[2] = [2, 0, hs[1]][k]
+        terms = [_Term(i, hs[i]) for i in range(3)]
+        # the solver already tracks a prefix (an earlier _add call did it, with the real code)
+        npre = c.choose([True, True, True], "already-tracked")
+        add = getattr(BZ.__dict__["_add"], "__wrapped__", BZ.__dict__["_add"])
+        core = getattr(BZ.__dict__["_unsat_core"], "__wrapped__", BZ.__dict__["_unsat_core"])
+        try:
+            if npre:
+                add(b, s, terms[:npre], track=True)
+            pre = list(s.tracked)
+            again = c.choose([True, True], "re-adds-a-tracked-term") == 1 and npre > 0
+            new = terms[npre:] + ([terms[0]] if again else [])
+            add(b, s, new, track=True)
+        except (PathEnd, Undecided):
+            raise
+        except Exception as ex:  # noqa
+            import traceback
+            c.fail("BackendZ3._add[track]/raises", f"{type(ex).__name__}: {ex} {traceback.format_exc()[-300:]}", kind="raises")
+            return "raised"
+        c.n_vcs += 1
+        asserted = [t for _, t in s.tracked] + list(s.plain)
+        for t in terms[:npre] + new:
+            if not any(a == t for a in asserted):
+                c.fail("BackendZ3._add[track]/every-constraint-is-asserted", f"{t!r} was passed to _add(track=True) but is not asserted in the solver "
+                       f"(tracked: {s.tracked!r}): the solver answers for a weaker constraint set", kind="C11")
+                return "dropped"
+        for a in asserted:
+            if not any(a == t for t in terms):
+                c.fail("BackendZ3._add[track]/nothing-else-is-asserted", f"{a!r} was asserted but never passed")
+        if len({n for n, _ in s.tracked}) != len(s.tracked):
+            c.fail("BackendZ3._add[track]/names-unique", "two tracked assertions share a name")
+        try:
+            r = core(b, s)
+        except (PathEnd, Undecided):
+            raise
+        except Exception as ex:  # noqa
+            c.fail("BackendZ3._unsat_core/raises", f"{type(ex).__name__}: {ex}", kind="raises")
+            return "raised"
+        want = s.last_core
+        if not (len(r) == len(want) and all(a is b_ for a, b_ in zip(r, want))):
+            c.fail("BackendZ3._unsat_core/the-terms-of-the-reported-literals", f"Z3 reports the literals of {want!r}; _unsat_core returned {r!r}", kind="C16")
+        return f"tracked:{len(s.tracked)}"
+
+    return explore(body, {"budget_s": 120, "replay": replay_tracked_collision})
+
+
+def replay_tracked_collision(failure=None):
+    """native: find two constraints x != i, x != j whose Z3 terms have the same Z3_get_ast_hash (a 32-bit hash: a few thousand candidates are
+    enough), then ask a tracked solver about a constraint set that is unsatisfiable only because of the second one"""
+    import claripy
+    x = claripy.BVS("kf_track_x", 32, explicit_name=True)
+    zb = claripy.backends.z3
+    seen, pair = {}, None
+    for i in range(300000):
+        h = hash(zb.convert(x != i))
+        if h in seen:
+            pair = (seen[h], i)
+            break
+        seen[h] = i
+    if pair is None:
+        return {"reproduced": False, "text": "no two of the 300000 candidate constraints have the same Z3 term hash"}
+    i, j = pair
+    s = claripy.Solver(track=True)
+    s.add(x != i)
+    s.add(x != j)
+    s.add(claripy.UGT(x, j - 1))
+    s.add(claripy.ULT(x, j + 1))
+    sat = s.satisfiable()
+    plain = claripy.Solver()
+    plain.add(list(s.constraints))
+    return {"reproduced": bool(sat) and not plain.satisfiable(),
+            "text": f"Solver(track=True): add(x != {i}); add(x != {j}) [same Z3 term hash]; add(x >u {j - 1}); add(x <u {j + 1}); satisfiable() = {sat}; "
+                    f"an untracked Solver with the same constraints: {plain.satisfiable()}" + (f"; eval(x, 1) = {s.eval(x, 1)}" if sat else "")}
+
+
 def replay_cross_solver_core(f=None):
     """known finding C16: two tracked solvers whose constraints are different expressions with ONE Z3 term - the earlier
     solver's core names the later solver's expression"""
